@@ -4,6 +4,7 @@ CONSTANTS
   DtOverDx <- HsQuick
   Operators = {"upwind", "kappa13"}
   ImplKinds = {"implicit", "cranknicolson", "gear"}
+  DtModes = {"global", "local"}
   MaxSteps = 2
   ImplDeviations = {}
 INVARIANT DefiningRelation
